@@ -259,9 +259,21 @@ func (i *Inst) RunOidc(s *OiScript, tw *TraceWriter, rng *rand.Rand) error {
 				return fmt.Errorf("login on the other instance failed")
 			}
 		}
-		nb := i.NewBrowser("", "")
-		nb.C.Jar.SetCookies(u, []*http.Cookie{{Name: "RDPGWSESSION", Value: mutated, Path: "/"}})
-		h, err := nb.Get(i.BaseURL() + "/connect")
+		// whom the cookie is presented to: this gateway - or (foreign-sameconfig-later) a gateway started from the same
+		// configuration AFTER this one issued the cookie
+		target := i
+		if s.Mut == "foreign-sameconfig-later" {
+			j, err := i.R.NewInst(i.Cfg)
+			if err != nil {
+				return err
+			}
+			defer j.Stop()
+			target = j
+		}
+		tu, _ := url.Parse(target.BaseURL())
+		nb := target.NewBrowser("", "")
+		nb.C.Jar.SetCookies(tu, []*http.Cookie{{Name: "RDPGWSESSION", Value: mutated, Path: "/"}})
+		h, err := nb.Get(target.BaseURL() + "/connect")
 		if err != nil {
 			return err
 		}
